@@ -208,6 +208,20 @@ def gen_cases(rng, tier):
                 m.append({"s": V.S(V.gen_text(r)), "n": V.I(r.below(10 ** 6)), "ip": ["ip", r.choice(["192.168.1.1", "fe80::1"])],
                           "d": _dg()}[m[2]])
         cases.append({"kind": "stream", "via": r.choice(["fileobj", "path"]), "records": recs, "regen": mods})
+    r = rng.fork("rewrite")
+    GA = ["g/a", [["string", "x"], ["varint", "n"]]]
+    GB = ["g/b", [["string", "y"], ["string[]", "tags"]]]
+    for _ in range({"quick": 12, "thorough": 200, "search": 40}[tier]):
+        mk = lambda ds, vals: ["rec", ds, vals, {"_generated": V.gen_dt_spec(r, tzkinds=("utc",), fold_ok=False)}]  # noqa: E731
+        grp = ["grouped", "grp/rw", [mk(GA, [V.S(V.gen_text(r)), V.I(r.below(99))]), mk(GB, [V.S("y0"), ["list", [V.S("t")]]])]]
+        plain = mk(GA, [V.S("p"), V.I(1)])
+        recs = [grp, plain] if r.chance(50) else [plain, grp]
+        gi = recs.index(grp)
+        mods = [r.choice([[gi, "member_set", "y", 1, V.S(V.gen_text(r))], [gi, "member_set", "n", 0, V.I(r.below(10 ** 6))],
+                          [gi, "member_set", "x", 0, V.S("edited")]]) for _ in range(r.randint(1, 2))]
+        if r.chance(40):
+            mods.append([1 - gi, "set", "x", V.S("plain-edited")])
+        cases.append({"kind": "stream", "via": "fileobj", "records": recs, "rewrite": mods})
     # ---- the field-type layer on its own: value -> _pack() -> msgpack round trip -> _unpack()
     r = rng.fork("field")
     for t in sorted(FIELD_KINDS):
@@ -435,16 +449,22 @@ def run_real(case):
                "hashes": hashes, "spec_sig": spec_sig}
         if case.get("regen") and err is None and len(got) == len(recs):
             out["regen"] = _regen(case, got)
+        if case.get("rewrite"):
+            # the objects that WERE WRITTEN are edited in place afterwards and written to a second stream
+            out["rewrite"] = _regen(case, recs, case["rewrite"])
         return out
 
 
-def _regen(case, got):
+def _regen(case, got, mods=None):
     """edit the records that came out of the reader in place, write them again, read them back"""
     from flow.record import RecordStreamReader, RecordStreamWriter
+    mods = case["regen"] if mods is None else mods
     try:
-        for m in case["regen"]:
+        for m in mods:
             if m[0] >= len(got) or not hasattr(got[m[0]], m[2]):
                 continue            # (a shrunk case: the record or the field is gone)
+            if m[1] == "member_set" and (not hasattr(got[m[0]], "records") or m[3] >= len(got[m[0]].records)):
+                continue
             rec = got[m[0]]
             if m[1] == "digest":
                 tgt = getattr(rec, m[2])
@@ -453,6 +473,9 @@ def _regen(case, got):
                         continue
                     tgt = tgt[m[3]]
                 setattr(tgt, m[4], m[5])
+            elif m[1] == "member_set":
+                # edit a member of a grouped record directly (group.records[k].field = value)
+                setattr(rec.records[m[3]], m[2], V.build(m[4]))
             elif m[1] == "set":
                 setattr(rec, m[2], V.build(m[3]))
             elif m[1] == "append":
@@ -559,6 +582,17 @@ def oracle(case, obs):
             known = known or f"[ipv6<2^32] {path}: IPv6 address {a[3]} read back as IPv4"
             continue
         return f"record read back differs from record written at {path}: {a!r} != {b!r}"[:400]
+    for key, label in (("rewrite", "records written once, edited in place and written again"),):
+        g2 = obs.get(key)
+        if g2:
+            if g2["error"]:
+                return f"{label}: raised {g2['error']}"
+            if len(g2["before"]) != len(g2["after"]):
+                return f"{label}: wrote {len(g2['before'])} records, read {len(g2['after'])}"
+            for path, a, b in all_diffs(g2["before"], g2["after"], "records"):
+                if is_ipv6_low(a, b):
+                    continue
+                return f"second stream ({label}) differs at {path}: {a!r} != {b!r}"[:400]
     g = obs.get("regen")
     if g:
         if g["error"]:
